@@ -12,10 +12,11 @@ MIN_CASES = {"quick": 1500, "thorough": 15000}
 RULE = ("Two generated families. (tree) Hypothesis draws operator trees whose leaves carry every combination of TRUE "
         "declarations (PSD/SelfAdjoint/Unitary/Stiefel/none; the generator only declares what its construction guarantees) "
         "combined by scalar multiples (positive, negative, complex, unit-modulus, zero), sums, products incl. the same-object "
-        "patterns A.H@A, A@A.H, A.T@A, A@A.T, Kronecker, block-diagonal, slices with equal/unequal index sets, .T/.H; every "
+        "patterns A.H@A, A@A.H, A.T@A, A@A.T (also with a lazy, non-Dense factor and multiplied further: G^H G B), Kronecker, "
+        "block-diagonal, slices with equal / unequal / equal-but-permuted index sets, .T/.H, declarations on composites; every "
         "annotation reported by the root, by every IR subtree (built stand-alone) and by every operator object reachable "
         "inside the root is tested on the dense reference matrix. (routine) outputs of lanczos, arnoldi, eig (all "
-        "rules/algorithms), svd, exp/log/sqrt/pow, inv(Unitary), pinv(CG) are tested the same way. Second half: B = Ann(A) "
+        "rules/algorithms, incl. explicit Eig on declared-SelfAdjoint operators with repeated eigenvalues), svd, exp/log/sqrt/pow, inv(Unitary), pinv(CG) are tested the same way. Second half: B = Ann(A) "
         "has the same dense matrix, annotations = A.annotations | {Ann}, and A is unchanged. Non-trivial: some node reports "
         "an annotation it was not directly declared with (inferred, or attached by a routine).")
 ASSUMPTIONS = [
@@ -70,7 +71,7 @@ class AnnGen(gen.TraitGen):
     def __init__(self, draw, **kw):
         super().__init__(draw, **kw)
         self.comp_any += ["gramx"]
-        self.comp_sq += ["traited", "traited", "sslice"]
+        self.comp_sq += ["traited", "traited", "sslice", "gramprod"]
 
     def op(self, r, c, depth):
         if r == c and self.integer(1, 2) == 1:
@@ -91,12 +92,33 @@ class AnnGen(gen.TraitGen):
         ch = self.op(m, r, d) if form in ("HA", "TA") else self.op(r, m, d)
         return {"k": "gram", "form": form, "ch": [ch]}
 
+    def k_gramprod(self, r, c, d):
+        # a same-object product G^H G (G lazy, not Dense) multiplied further: G^H G B / B G^H G / (G^H G) (G^H G)
+        form = self.pick(["HA", "AH", "TA", "AT"])
+        m = self.integer(1, 5)
+        shape = (m, r) if form in ("HA", "TA") else (r, m)
+        G = {"k": self.pick(["sum", "sum", "prod"]), "via": "op", "ch": None}
+        if G["k"] == "sum":
+            G["ch"] = [self.op(*shape, max(d - 1, 0)), self.op(*shape, 0)]
+        else:
+            k = self.integer(1, 4)
+            G["ch"] = [self.op(shape[0], k, 0), self.op(k, shape[1], max(d - 1, 0))]
+        gram = {"k": "gram", "form": form, "ch": [G]}
+        other = gram if self.integer(1, 4) == 1 else self.op(r, r, max(d - 1, 0))
+        ch = [gram, other] if self.boolean() else [other, gram]
+        return {"k": "prod", "via": self.pick(["op", "op", "ctor"]), "ch": ch}
+
     def k_sslice(self, r, c, d):
         # slice of an annotated square operator with equal or unequal index sets
         R = r + self.integer(0, 2)
         child = self.sq(R, self.pick(["pd", "herm", "unitary"]), max(d, 0))
         s0 = self.index_for(r, R)
         s1 = s0 if self.boolean() else self.index_for(r, R)
+        if self.integer(1, 3) == 1:
+            # the same set of positions on both axes, in a different order: a permuted principal sub-matrix
+            pos = [int(p) for p in np.arange(R)[IR.dec_index(s0)] % R]
+            if len(set(pos)) == len(pos) and len(pos) >= 2:
+                s0, s1 = {"ix": pos}, {"ix": [int(p) for p in self.draw(st.permutations(pos))]}
         return {"k": "slice", "ch": [child], "s0": s0, "s1": s1}
 
     def k_scale(self, r, c, d):
@@ -139,9 +161,17 @@ def routine_cases(draw, tier):
             case["tree"] = g.pick([g.t_inv, g.t_herm])(n, 1)
             case["max_iters"] = g.integer(1, n + 2)
     elif rt == "eig":
-        kind = g.pick(["herm", "gen", "diag", "tri", "eye"])
+        kind = g.pick(["herm", "herm_rep", "gen", "diag", "tri", "eye"])
         case["alg"] = g.pick(["omitted", "Auto", "Eig", "Eigh", "Lanczos", "Arnoldi"])
-        if kind == "herm" or case["alg"] in ("Eigh", "Lanczos"):
+        if kind == "herm_rep":
+            # declared-SelfAdjoint operator with repeated eigenvalues in a generic (non axis-aligned) eigenbasis
+            dt = g.dtype(("f8", "c16"))
+            Qm = np.linalg.qr(g.dd_matrix(n, dt))[0]
+            lam = np.array([g.pick([-2.0, 1.0, 3.0]) for _ in range(n)])
+            M = (Qm * lam) @ Qm.conj().T
+            case["tree"] = {"k": "ann", "a": g.pick(["SelfAdjoint", "SelfAdjoint", "PSD"]) if lam.min() > 0 else "SelfAdjoint",
+                            "ch": [g._dense_like((M + M.conj().T) / 2, dt, kinds=("dense", ))]}
+        elif kind == "herm" or case["alg"] in ("Eigh", "Lanczos"):
             B = g.array((n, n), g.dtype(), -2, 2)
             case["tree"] = {"k": "ann", "a": "SelfAdjoint", "ch": [g._dense_like(B + B.conj().T, "c16" if B.dtype.kind == "c" else "f8")]}
         elif kind == "gen":
